@@ -7,6 +7,7 @@
 #include <stdio.h>
 
 #include "error.h"
+#include "handle.h"
 #include "pipe.h"
 
 static FILE *stream_to_file(REPROC_STREAM stream)
@@ -71,6 +72,12 @@ int redirect_path(int *child, REPROC_STREAM stream, const char *path)
   int r = open(path, mode | O_CREAT | O_CLOEXEC, 0640);
   if (r < 0) {
     return -errno;
+  }
+
+  int q = handle_above_stdio(&r);
+  if (q < 0) {
+    handle_destroy(r);
+    return q;
   }
 
   *child = r;
